@@ -1438,18 +1438,21 @@ class ConcreteCtx:
             F = uf(name, arity)
             try:
                 interp = self.m[F]
-            except Exception:
+            except BaseException:
                 interp = None
             if interp is not None:
-                for i in range(interp.num_entries()):
-                    e = interp.entry(i)
-                    args = [_model_float(e.arg_value(j)) for j in range(arity)]
-                    entries.append((args, _model_float(e.value())))
-                ev = interp.else_value()
-                if _is_num(ev) or z3.is_algebraic_value(ev):
-                    default = _model_float(ev)
-                else:
-                    default = None   # else-value is an expression: evaluate per call
+                try:
+                    for i in range(interp.num_entries()):
+                        e = interp.entry(i)
+                        args = [_model_float(e.arg_value(j)) for j in range(arity)]
+                        entries.append((args, _model_float(e.value())))
+                    ev = interp.else_value()
+                    if _is_num(ev) or z3.is_algebraic_value(ev):
+                        default = _model_float(ev)
+                    else:
+                        default = None   # else-value is an expression: evaluate per call
+                except z3.Z3Exception:
+                    entries, default = [], 0.0   # the model does not interpret this function
         self._uf_tables[key] = (entries, default)
         return self._uf_tables[key]
 
